@@ -382,7 +382,7 @@ class Ctx:
         path = os.path.join(self.work, name + ".v")
         with open(path, "w") as f:
             f.write(text)
-        return sh("ulimit -s unlimited; timeout %d coqc -w -all -Q %s V %s" % (timeout, COQ, path),
+        return sh("ulimit -s unlimited; ulimit -v 6291456; timeout %d coqc -w -all -Q %s V %s" % (timeout, COQ, path),
                   cwd=self.work, timeout=timeout + 30)
 
     def coq_cases(self, header, eqb, cases, shard=400, name="cases", timeout=900):
